@@ -1079,6 +1079,12 @@ def trigger_scenarios(quick=False):
     t("waters-only:assign-only", dict({"item": "1AJJ.pdb", "window": [0, 1], "waters": 10},
                                       damage=[[0, "drop_backbone"], [0, "keep_backbone"]],
                                       argv=["--ff=PARSE", "--assign-only"]))
+    # more unlabelled chains than there are labels ("Too many chains exist in biomolecule.
+    # Consider preparing subsets.")
+    t("too-many-unlabelled-chains:63",
+      dict({"item": "1AJJ.pdb", "window": [2, 3]}, many_chains=63, argv=["--ff=AMBER", "--noopt"]))
+    t("too-many-unlabelled-chains:70:clean",
+      dict({"item": "1AJJ.pdb", "window": [2, 2]}, many_chains=70, argv=["--clean"]))
     # a residue of which a single atom is left cannot be rebuilt (three anchors are needed)
     # (whole 1AJJ, so that the loss stays far below the 10 % repair limit and the rejection
     # really is "too few atoms present to reconstruct the residue")
